@@ -86,6 +86,7 @@ Theorem roundtrip_tree_real :
   forall hp tid t apropos fuel F st ps,
     let a := app_of_tree t in
     names_ok (sports_of t) = true -> tree_ok (to_tree hp tid (sports_of t)) -> Forall pt_wf t ->
+    switches_ok t = true ->
     NoDup (map dir_addr (dirs_root t)) -> NoDup (app_addresses a) ->
     full_conditions a st -> comparable a st -> cstrings st ->
     declared a apropos ->
@@ -100,11 +101,11 @@ Theorem roundtrip_tree_real :
       forall q, (q < length a)%nat -> p_nodef (port_at a q) = false -> live a st q = true ->
                 restored_val (port_at a q) (val_at st q) (val_at fin q).
 Proof.
-  intros hp tid t apropos fuel F st ps a Hnames Htree Hwf Hdirs Haddr Hfull Hcmp Hstr Hdecl Hp Hr Hlines.
+  intros hp tid t apropos fuel F st ps a Hnames Htree Hwf Hsw Hdirs Haddr Hfull Hcmp Hstr Hdecl Hp Hr Hlines.
   unfold a in *. clear a.
   pose proof Hfull as (WF & _).
   apply roundtrip_pipeline_gen; try assumption.
-  - apply walk_stage; try assumption. intros i Hi. apply (w_shape _ WF i Hi).
+  - apply walk_stage; try assumption; [exact (w_paths _ WF)|]. intros i Hi. apply (w_shape _ WF i Hi).
   - intros i Hi. destruct (Hcmp i Hi) as [Hu Hw]. apply (eq_stage F _ _ Hu Hw).
   - destruct (print_scan_lines _ Hlines) as (rds & Hl & _ & Hs). exists rds. split; assumption.
   - destruct (sort_stage (app_of_tree t) st apropos fuel WF Hdecl ps Hp Hr) as (s & Hs & Hperm & Hresp).
@@ -146,6 +147,7 @@ Theorem roundtrip_tree_real_lines :
   forall hp tid t apropos fuel F st ps,
     let a := app_of_tree t in
     names_ok (sports_of t) = true -> tree_ok (to_tree hp tid (sports_of t)) -> Forall pt_wf t ->
+    switches_ok t = true ->
     NoDup (map dir_addr (dirs_root t)) -> NoDup (app_addresses a) ->
     full_conditions a st -> comparable a st -> cstrings st ->
     declared a apropos ->
@@ -160,7 +162,7 @@ Theorem roundtrip_tree_real_lines :
       forall q, (q < length a)%nat -> p_nodef (port_at a q) = false -> live a st q = true ->
                 restored_val (port_at a q) (val_at st q) (val_at fin q).
 Proof.
-  intros hp tid t apropos fuel F st ps a Hnames Htree Hwf Hdirs Haddr Hfull Hcmp Hstr Hdecl Hp Hr Hl Hlines.
+  intros hp tid t apropos fuel F st ps a Hnames Htree Hwf Hsw Hdirs Haddr Hfull Hcmp Hstr Hdecl Hp Hr Hl Hlines.
   apply (roundtrip_tree_real hp tid t apropos fuel F st ps); try assumption.
   apply good_lines_read; assumption.
 Qed.
